@@ -35,6 +35,8 @@ func main() {
 		c := chk.New(id, tier)
 		_ = replay
 		switch id {
+		case "C01":
+			checkC01(c)
 		case "C02":
 			wireCheck(c, "C02", true, nil)
 		case "C03":
